@@ -371,7 +371,8 @@ class Gen:
         ap("R8-cast", R.rule_dyn_cast)
         ap("R8-filter", R.rule_option_filter)
         ap("R8-map", R.rule_option_map)
-        ap("R8-panic", R.rule_panics, bool(spec.get("no_panic")))
+        # framework code must not panic, except where the contract says so (capacity 0 in spawn, the deliberate deadlock panic)
+        ap("R8-panic", R.rule_panics, bool(spec.get("no_panic")), spec.get("panics", "forbid"))
         ap("R4-val", await_values)
         ap("R4", R.rule_async)
         ap("R-type", type_spelling)
